@@ -497,12 +497,12 @@ def run(rep, repo, tier):
     check_defined(rep, repo, 'C10.R7', [repo.function('import_model', required=False)], 'instance reader')
 
 
-def check_import_pure(rep, repo):
+def check_import_pure(rep, repo, rule='C10.R8'):
     """R8: mutation events of import_model rooted at a module global, and reads of module-level mutable containers"""
     from ..effects import Effects
     f = repo.function('import_model', required=False)
     if f is None:
-        rep.inconclusive('C10.R8', 'matchingproblems/solver/fileIO.py', 'import_model exists', got='not found')
+        rep.inconclusive(rule, 'matchingproblems/solver/fileIO.py', 'import_model exists', got='not found')
         return
     E_ = Effects(repo)
     evs = E_.analyse(f)
@@ -513,7 +513,7 @@ def check_import_pure(rep, repo):
         if ev.loc in seen:
             continue
         seen.add(ev.loc)
-        rep.fail('C10.R8', f.where, 'reading a file changes no module-level state', got=ev.describe(), want='a fresh Model per call, nothing remembered between calls',
+        rep.fail(rule, f.where, 'reading a file changes no module-level state', got=ev.describe(), want='a fresh Model per call, nothing remembered between calls',
                  construct='module state %s: %s' % (ev.prov[1], ev.text()), loc=ev.loc)
     # module-level mutable containers consulted by the import slice
     mutable_globals = {}
@@ -529,9 +529,9 @@ def check_import_pure(rep, repo):
         for x in ast.walk(g.node):
             if isinstance(x, ast.Name) and x.id in mutable_globals and mutable_globals[x.id] == g.relpath and x.id not in g.params:
                 reads.append('%s:%d %s' % (g.relpath, x.lineno, x.id))
-    rep.check(not reads or bool(bad), 'C10.R8', f.where, 'the import consults no module-level container that outlives the call', got=reads[:3] or 'none', construct='module-level container consulted: ' + (reads[0].split(' ')[-1] if reads else ''))
+    rep.check(not reads or bool(bad), rule, f.where, 'the import consults no module-level container that outlives the call', got=reads[:3] or 'none', construct='module-level container consulted: ' + (reads[0].split(' ')[-1] if reads else ''))
     if not bad and not reads:
-        rep.ok('C10.R8', f.where, 'mutation summary of import_model over %d functions has no module-level root' % len(reach), got='%d events, all on the new Model' % len(evs))
+        rep.ok(rule, f.where, 'mutation summary of import_model over %d functions has no module-level root' % len(reach), got='%d events, all on the new Model' % len(evs))
 
 
 def check_reader(rep, R):
